@@ -7,7 +7,8 @@ with no ACL and no implicit defaults. Expected by the statement: the same comman
 (formatter.cmd_paths of both patch trees) and the same diff entries (the file-mode diff against the device-mode diff,
 which is already stripped of unchanged lines). For the corpus samples given as texts the two CLI workers are compared
 as well: api.file_patch_worker / api.file_diff_worker on files in a temp dir against the device-mode patch text /
-diff text. Inputs: the shipped tests/annet/test_patch/*.yaml corpus, its per-vendor cross products (before_i, after_j),
+diff text (plain and with --show-rules) and the entries of the `pre` the diff worker renders against those of the
+device-mode diff. Inputs: the shipped tests/annet/test_patch/*.yaml corpus, its per-vendor cross products (before_i, after_j),
 and random sub-trees of the union of all corpus trees of a vendor."""
 import os
 import random
@@ -303,6 +304,21 @@ def check_workers(vendor, before_text, after_text):
         args = _Args(c["hw"])
         f_patch = "".join(text for (_, text, _) in api.file_patch_worker((op, np), args))
         f_diff = "".join(text for (_, text, _) in api.file_diff_worker((op, np), args))
+        # once more with --show-rules, observing the `pre` the worker hands to its renderer
+        captured = []
+        real_render = api.ann_diff.gen_pre_as_diff
+
+        def spy(pre, *a, **kw):
+            if not (a[3:] or kw.get("_level")):
+                captured.append(pre_entries(pre))
+            return real_render(pre, *a, **kw)
+        api.ann_diff.gen_pre_as_diff = spy
+        try:
+            args_rules = _Args(c["hw"])
+            args_rules.show_rules = True
+            f_diff_rules = "".join(text for (_, text, _) in api.file_diff_worker((op, np), args_rules))
+        finally:
+            api.ann_diff.gen_pre_as_diff = real_render
     finally:
         shutil.rmtree(tmp, ignore_errors=True)
     old = tabparser.parse_to_tree(text=before_text, splitter=c["split"])
@@ -322,7 +338,48 @@ def check_workers(vendor, before_text, after_text):
         only = sorted(set(f_diff.splitlines()) ^ set(d_diff.splitlines()), key=lambda x: x.lstrip("+- "))
         out.append(("bounded:C16:worker-diff-text-differs:%s:%s" % (vendor.replace(" ", "-"), leading(only[0].lstrip("+- ")) if only else "count"),
                     "file_diff_worker lines != device-mode diff lines (as multisets); lines on one side only: %r" % only[:4], d_diff, f_diff))
+    # the diff ENTRIES the file worker renders against make_pre(device-mode diff), per level as multisets (all ops, so
+    # that unchanged rows the file front end forgot to drop are seen), and the text with the rule headers
+    d_entries = pre_entries(patching.make_pre(diff_tree))
+    if captured and captured[-1] != d_entries:
+        only = _first_entry_difference(captured[-1], d_entries)
+        out.append(("bounded:C16:worker-diff-entries-differ:%s:%s" % (vendor.replace(" ", "-"), only[2] if only else "count"),     # named after the op of the entry
+                    "the entries file_diff_worker renders != the entries of the device-mode diff; first entry only one side has: %r"
+                    % (only,), d_entries, captured[-1]))
+    d_diff_rules = "".join(gen_pre_as_diff(patching.make_pre(resort_diff(diff_tree)), True, "  ", True))
+    if sorted(f_diff_rules.splitlines()) != sorted(d_diff_rules.splitlines()):
+        only = sorted(set(f_diff_rules.splitlines()) ^ set(d_diff_rules.splitlines()))
+        out.append(("bounded:C16:worker-diff-rules-text-differs:%s" % vendor.replace(" ", "-"),
+                    "file_diff_worker --show-rules lines != device-mode --show-rules lines (as multisets); lines on one side only: %r"
+                    % only[:4], d_diff_rules, f_diff_rules))
     return out
+
+
+def pre_entries(pre):
+    """a `pre` (what gen_pre_as_diff renders) -> per level the sorted list of [rule, key, op, row, children]"""
+    out = []
+    for raw_rule, content in pre.items():
+        for key, diff in content["items"].items():
+            for op, rows in diff.items():
+                for item in rows:
+                    out.append([raw_rule, list(key) if isinstance(key, (tuple, list)) else key, str(getattr(op, "value", op)), item["row"],
+                                pre_entries(item["children"])])
+    return sorted(out, key=repr)
+
+
+def _first_entry_difference(a, b):
+    ra, rb = [repr(x[:4]) for x in a], [repr(x[:4]) for x in b]
+    for x, r in zip(a, ra):
+        if ra.count(r) != rb.count(r):
+            return x[:4]
+    for x, r in zip(b, rb):
+        if ra.count(r) != rb.count(r):
+            return x[:4]
+    for x in a:
+        for y in b:
+            if x[:4] == y[:4] and x[4] != y[4]:
+                return _first_entry_difference(x[4], y[4])
+    return None
 
 
 # ---------------------------------------------------------------- driver
@@ -387,7 +444,8 @@ def run(tier="quick", seed=0, part=0, nparts=1):
                 failures.append(dict(key=key, text=text, case=case, expected=exp, actual=act))
     return dict(evaluations=ev, nontrivial=sorted(nontrivial), failures=failures, samples=samples,
                 rule="the 192 (before, after) samples of tests/annet/test_patch/*.yaml (10 vendors, hardware stubs of the test suite): each "
-                     "sample (+ the CLI workers file_patch_worker/file_diff_worker on temp files for the 81 samples given as texts), each "
+                     "sample (+ the CLI workers file_patch_worker/file_diff_worker on temp files for the 81 samples given as texts: patch text, "
+                     "diff text plain and with --show-rules, and the entries of the rendered `pre` incl. unchanged ones), each "
                      "sample reversed, all per-vendor cross products (before_i, after_j), and %d seeded random pairs per vendor of random "
                      "sub-trees of the union of the vendor's corpus trees (1..4 groups of root rows sharing their first two words, rows and "
                      "children kept with p in {0.5,0.7,0.9} independently for old and new). Compared: cmd_paths of "
